@@ -70,3 +70,22 @@ Definition no_finding_b : bool :=
 Definition only_by_design_b : bool :=
   forallb (fun a => match class_of a with Some Finding => mem a by_design | Some _ => true | None => false end) attr_names
   && forallb (fun a => match class_of a with Some Finding => true | _ => false end) by_design.
+
+(* every read of an option inside an analysis module is a read of a key attribute (in the snapshot), of a dir attribute
+   (selects the cache directory), or a reviewed read (attribute, file) of an inert attribute *)
+Definition reviewed_of (a : string) : list string :=
+  match find (fun p => String.eqb (fst p) a) reviewed_reads with Some p => snd p | None => [] end.
+
+Definition read_ok (a f : string) : bool :=
+  match class_of a with
+  | Some Key | Some Dir => true
+  | Some Inert => mem f (reviewed_of a)
+  | _ => false
+  end.
+
+Definition analysis_reads_ok_b : bool :=
+  forallb (fun p => forallb (read_ok (fst p)) (snd p)) analysis_reads
+  && forallb (fun p => match class_of (fst p) with Some Inert => true | _ => false end) reviewed_reads.
+
+Definition count_reads (c : oclass -> bool) : nat :=
+  List.length (filter (fun p => match class_of (fst p) with Some x => c x | None => false end) analysis_reads).
